@@ -47,6 +47,25 @@ func TestHarnessSmoke(t *testing.T) {
 	if err != nil || !strings.Contains(string(res.Body), in2.Keys[0].AddrHex) {
 		t.Fatalf("accounts: %v %s", err, res.Body)
 	}
+	// every decoy entry is listed next to the real keys
+	for _, a := range in2.Listed() {
+		if !strings.Contains(string(res.Body), a) {
+			t.Fatalf("accounts: %s lacks %s", res.Body, a)
+		}
+	}
+	if len(in2.Listed()) != len(in2.Keys)+len(DecoyKinds) {
+		t.Fatalf("listed: %v", in2.Listed())
+	}
+	t1 := time.Now()
+	in3, err := pool.Fresh(&chain, nil)
+	if err != nil {
+		t.Fatal(err)
+	}
+	t.Logf("starting a fresh process took %s", time.Since(t1))
+	pool.Drop(in3)
+	if in3.Signer.Alive() {
+		t.Fatal("dropped instance still alive")
+	}
 	if !in.Signer.Alive() || !in2.Signer.Alive() {
 		t.Fatal("not alive")
 	}
